@@ -29,7 +29,8 @@ def case_strategy(draw, name):
               dtype=draw(st.sampled_from(DTYPES)), pool_seed=draw(st.integers(0, 9999)),
               q_points=draw(st.lists(st.integers(0, n - 1), min_size=1, max_size=10)),
               q_tuples=draw(st.lists(st.lists(st.integers(0, n - 1), min_size=4, max_size=4), min_size=2, max_size=8)),
-              exc=draw(st.sampled_from(['IndexError', 'KeyError', 'RuntimeError', 'ValueError', 'ZeroDivisionError'])))
+              exc=draw(st.sampled_from(['IndexError', 'KeyError', 'RuntimeError', 'ValueError', 'ZeroDivisionError'])),
+              order=draw(st.sampled_from(['drawn', 'sorted', 'sorted', 'reversed'])))
 
 
 class Counting:
@@ -121,6 +122,20 @@ def check_c05(case, stats):
   # query methods
   qp = np.array(case['q_points']) % n
   qt = np.array(case['q_tuples']) % n
+  if case.get('order', 'drawn') != 'drawn':
+    # non-decreasing (or non-increasing) indicators with repeats and gaps: the shapes on which a
+    # "contiguous range" shortcut would be wrong
+    inv = np.argsort(pos)
+    qp = np.sort(qp)
+    qt = np.sort(qt, axis=0)
+    # make the POOL rows ascending too: pos[q] must be monotone for the shortcut to be tempted
+    order_pos = np.sort(pos)
+    rank = np.searchsorted(order_pos, pos)          # rank of each training point's pool row
+    by_rank = np.argsort(rank)
+    qp = by_rank[np.sort(rank[qp])]
+    qt = by_rank[np.sort(rank[qt], axis=0)]
+    if case['order'] == 'reversed':
+      qp, qt = qp[::-1], qt[::-1]
   calls = []
   calls.append(('transform', (cast(pos[qp], dt),), (pool[pos[qp]],)))
   pi = pos[qt[:, :2]]
@@ -191,7 +206,7 @@ def check_c05(case, stats):
   flat = np.asarray(fit_idx).ravel()
   unsorted_or_repeat = bool((np.diff(flat) < 0).any() or len(set(flat.tolist())) < flat.size)
   two_diff = np.asarray(fit_idx).ndim == 1 or bool((np.asarray(fit_idx)[:, 0] != np.asarray(fit_idx)[:, 1]).any())
-  stats.case(case, unsorted_or_repeat and two_diff, [name, case['kind'], 'dtype:' + dt])
+  stats.case(case, unsorted_or_repeat and two_diff, [name, case['kind'], 'dtype:' + dt, 'order:' + case.get('order', 'drawn')])
 
 
 CHECKS = {'check_c05': check_c05}
